@@ -20,26 +20,29 @@ Proof.
   reflexivity.
 Qed.
 
-Definition contributes (m : meth) (q : gparam) : bool :=
-  match m_kind m with MRef => negb (m_localgen m) && includes (m_sig m) q | _ => false end.
+Section WithSelfTy.
+Variable self_ty : list string.
 
-Lemma step_retain_In : forall hm m q, In q (step_retain hm m) <-> In q hm /\ contributes m q = false.
+Definition contributes (m : meth) (q : gparam) : bool :=
+  match m_kind m with MRef => negb (m_localgen m) && includes (subst_self self_ty (m_sig m)) q | _ => false end.
+
+Lemma step_retain_In : forall hm m q, In q (step_retain self_ty hm m) <-> In q hm /\ contributes m q = false.
 Proof.
   intros hm m q. unfold step_retain, contributes. destruct (m_kind m); try tauto.
   destruct (m_localgen m); simpl; [tauto|]. unfold retain. rewrite filter_In, negb_true_iff. tauto.
 Qed.
 
-Lemma fold_retain_In : forall ms hm q, In q (fold_left step_retain ms hm) <-> In q hm /\ used_by ms q = false.
+Lemma fold_retain_In : forall ms hm q, In q (fold_left (step_retain self_ty) ms hm) <-> In q hm /\ used_by self_ty ms q = false.
 Proof.
   induction ms as [|m ms IH]; intros hm q; simpl.
   - unfold used_by. simpl. tauto.
-  - rewrite IH, step_retain_In. unfold used_by. simpl. fold (contributes m q). fold (used_by ms q).
+  - rewrite IH, step_retain_In. unfold used_by. simpl. fold (contributes m q). fold (used_by self_ty ms q).
     rewrite orb_false_iff. tauto.
 Qed.
 
 (* refinement: whatever the iteration order of the map, the result is the declaration-order spec *)
 Theorem impl_gen_spec : forall params ms hm0, Permutation hm0 (filter nonconst params) ->
-  impl_gen params hm0 ms = spec_gen params ms.
+  impl_gen params self_ty hm0 ms = spec_gen params self_ty ms.
 Proof.
   intros params ms hm0 P. unfold impl_gen, spec_gen. apply get_mod_gen_ext. intro q.
   rewrite fold_retain_In. unfold unused. rewrite filter_In, andb_true_iff, negb_true_iff.
@@ -50,7 +53,7 @@ Qed.
 
 Theorem impl_gen_deterministic : forall params ms hm1 hm2,
   Permutation hm1 (filter nonconst params) -> Permutation hm2 (filter nonconst params) ->
-  impl_gen params hm1 ms = impl_gen params hm2 ms.
+  impl_gen params self_ty hm1 ms = impl_gen params self_ty hm2 ms.
 Proof. intros. rewrite (impl_gen_spec params ms hm1), (impl_gen_spec params ms hm2); auto. Qed.
 
 (* field i of the PhantomData block is the i-th private parameter in declaration order *)
@@ -60,19 +63,50 @@ Lemma enumerate_fst : forall (A : Type) (l : list A) i, map fst (enumerate i l) 
 Proof. induction l; intro i; simpl; [reflexivity|]. rewrite IHl. reflexivity. Qed.
 
 Theorem phantom_fields_in_declaration_order : forall params ms,
-  let g := spec_gen params ms in
+  let g := spec_gen params self_ty ms in
   map snd (mg_phantom g) = mg_private g /\ map fst (mg_phantom g) = seq 0 (List.length (mg_private g)) /\
-  (full ms = false -> mg_private g = map gp_name (filter (fun p => mem_name (gp_name p) (unused params ms)) params)).
+  (full ms = false -> mg_private g = map gp_name (filter (fun p => mem_name (gp_name p) (unused params self_ty ms)) params)).
 Proof.
   intros params ms. unfold spec_gen, get_mod_gen. destruct (full ms); simpl.
   - repeat split; auto. discriminate.
   - rewrite enumerate_snd, enumerate_fst. repeat split; auto.
 Qed.
 
+(* `Self` in the signature of a selected reference method (without generics of its own) counts as a use of every
+   parameter the impl's self type names: such a parameter is never private, it is a parameter of the Script enum *)
+Lemma includes_subst_self : forall sig n, In "Self"%string sig -> In n self_ty ->
+  existsb (String.eqb n) (subst_self self_ty sig) = true.
+Proof.
+  intros sig n Hs Hn. apply existsb_exists. exists n. split; [|apply String.eqb_refl].
+  unfold subst_self. apply in_flat_map. exists "Self"%string. split; [exact Hs|]. rewrite String.eqb_refl. exact Hn.
+Qed.
+
+Theorem self_counts_as_use : forall params ms m p,
+  In m ms -> m_kind m = MRef -> m_localgen m = false -> In "Self"%string (m_sig m) -> In (gp_name p) self_ty -> full ms = false ->
+  ~ In (gp_name p) (mg_private (spec_gen params self_ty ms)) /\
+  (In p params -> In (gp_name p) (mg_script (spec_gen params self_ty ms))).
+Proof.
+  intros params ms m p Hm Hk Hl Hs Hn Hf.
+  assert (forall q, gp_name q = gp_name p -> used_by self_ty ms q = true) as U.
+  { intros q E. unfold used_by. apply existsb_exists. exists m. split; [exact Hm|]. rewrite Hk, Hl. simpl.
+    unfold includes. rewrite E. apply includes_subst_self; assumption. }
+  assert (mem_name (gp_name p) (unused params self_ty ms) = false) as M.
+  { destruct (mem_name (gp_name p) (unused params self_ty ms)) eqn:E; [|reflexivity]. exfalso.
+    unfold mem_name in E. apply existsb_exists in E. destruct E as [q [Hq Eq]]. apply String.eqb_eq in Eq.
+    unfold unused in Hq. apply filter_In in Hq. destruct Hq as [_ Hq]. apply andb_prop in Hq. destruct Hq as [_ Hq].
+    rewrite (U q Eq) in Hq. discriminate. }
+  unfold spec_gen, get_mod_gen. rewrite Hf. simpl. split.
+  - intro Hin. apply in_map_iff in Hin. destruct Hin as [q [Eq Hq]]. apply filter_In in Hq. destruct Hq as [_ Hq].
+    rewrite Eq, M in Hq. discriminate.
+  - intro Hp. apply in_map_iff. exists p. split; [reflexivity|]. apply filter_In. split; [exact Hp|]. rewrite M. reflexivity.
+Qed.
+
+End WithSelfTy.
+
 (* the code before fix fdc5b8f did depend on the iteration order (defect F2) *)
 Theorem impl_gen_old_order_dependent : exists params ms hm1 hm2,
   Permutation hm1 (filter nonconst params) /\ Permutation hm2 (filter nonconst params) /\
-  impl_gen_old params hm1 ms <> impl_gen_old params hm2 ms.
+  impl_gen_old params [] hm1 ms <> impl_gen_old params [] hm2 ms.
 Proof.
   pose (X := {| gp_kind := KType; gp_name := "X"%string |}). pose (Y := {| gp_kind := KType; gp_name := "Y"%string |}).
   exists [X; Y], [], [X; Y], [Y; X]. repeat split.
@@ -87,8 +121,8 @@ Example impl_gen_example :
   let params := [p KLife "'a"; p KType "X"; p KType "Y"; p KConst "N"; p KType "Z"]%string in
   let ms := [ {| m_kind := MRef; m_localgen := false; m_sig := ["fn"; "inc"; "("; "&"; "mut"; "self"; ","; "y"; ":"; "Y"; ")"]%string |} ] in
   Permutation [p KType "Z"; p KType "Y"; p KType "X"; p KLife "'a"]%string (filter nonconst params) /\
-  mg_phantom (impl_gen params [p KType "Z"; p KType "Y"; p KType "X"; p KLife "'a"]%string ms) = [(0, "'a"); (1, "X"); (2, "Z")]%string /\
-  mg_script (impl_gen params [p KType "Z"; p KType "Y"; p KType "X"; p KLife "'a"]%string ms) = ["Y"; "N"]%string.
+  mg_phantom (impl_gen params ["A"; "<"; "'a"; ","; "X"; ","; "Y"; ","; "N"; ","; "Z"; ">"]%string [p KType "Z"; p KType "Y"; p KType "X"; p KLife "'a"]%string ms) = [(0, "'a"); (1, "X"); (2, "Z")]%string /\
+  mg_script (impl_gen params ["A"; "<"; "'a"; ","; "X"; ","; "Y"; ","; "N"; ","; "Z"; ">"]%string [p KType "Z"; p KType "Y"; p KType "X"; p KLife "'a"]%string ms) = ["Y"; "N"]%string.
 Proof.
   simpl. repeat split.
   change (Permutation (rev [{| gp_kind := KLife; gp_name := "'a" |}; {| gp_kind := KType; gp_name := "X" |};
@@ -96,4 +130,26 @@ Proof.
                       [{| gp_kind := KLife; gp_name := "'a" |}; {| gp_kind := KType; gp_name := "X" |};
                        {| gp_kind := KType; gp_name := "Y" |}; {| gp_kind := KType; gp_name := "Z" |}]).
   apply Permutation_sym. apply Permutation_rev.
+Qed.
+
+(* a Self-only use: impl<T, U, const N: usize> A<T, N> for a type whose third parameter is fixed elsewhere is not needed --
+   the plain case impl<T, U> A<T> { fn snapshot(&self) -> Self } shows it: T is a Script parameter although no signature spells it,
+   U (not named by the self type here) stays private *)
+Example self_only_example :
+  let p k n := {| gp_kind := k; gp_name := n |} in
+  let params := [p KType "T"; p KType "U"]%string in
+  let ms := [ {| m_kind := MRef; m_localgen := false; m_sig := ["fn"; "snapshot"; "("; "&"; "self"; ")"; "-"; ">"; "Self"]%string |} ] in
+  mg_script (impl_gen params ["A"; "<"; "T"; ">"]%string [p KType "U"; p KType "T"]%string ms) = ["T"]%string /\
+  mg_phantom (impl_gen params ["A"; "<"; "T"; ">"]%string [p KType "U"; p KType "T"]%string ms) = [(0, "U")]%string.
+Proof. split; reflexivity. Qed.
+
+(* retaining BEFORE the Self substitution (a reordering of process_met) computes a different partition: T would become private
+   while the variant field still has type A<T> *)
+Theorem retain_before_substitution_differs : exists params self_ty ms hm,
+  Permutation hm (filter nonconst params) /\ impl_gen_retain_first params hm ms <> impl_gen params self_ty hm ms.
+Proof.
+  exists [{| gp_kind := KType; gp_name := "T"%string |}], ["A"; "<"; "T"; ">"]%string,
+         [ {| m_kind := MRef; m_localgen := false; m_sig := ["fn"; "absorb"; "("; "&"; "mut"; "self"; ","; "other"; ":"; "Self"; ")"]%string |} ],
+         [{| gp_kind := KType; gp_name := "T"%string |}].
+  split; [apply Permutation_refl | vm_compute; discriminate].
 Qed.
